@@ -522,6 +522,10 @@ def h8(ctx):
             ctx.violate(key, p, 'new does not build a ChannelInternal: %s' % fmt(r))
             continue
         fields = dict(zip(agg[4], agg[3]))
+        for gk in list(fields):
+            gv = fields[gk]
+            if gk in ctx.facts.j.get('ci_groups', []) and isinstance(gv, tuple) and gv and gv[0] == 'agg':
+                fields.update(dict(zip(gv[4], gv[3])))  # a grouping struct built in place: its fields are the channel's
         lb = labels(evs)
         if not is_const(fields.get('recv_count', ('x',)), 1) or not is_const(fields.get('send_count', ('x',)), 1):
             ctx.violate(key, p, 'new does not start with one sender and one receiver')
